@@ -6,6 +6,7 @@ mod c07;
 mod c09;
 mod c10;
 mod c11;
+mod c12;
 mod c16;
 mod fw;
 mod indep;
@@ -55,6 +56,7 @@ fn main() {
         "C09" => c09::check(tier),
         "C10" => c10::check(tier),
         "C11" => c11::check(tier),
+        "C12" => c12::check(tier),
         "C16" => c16::check(tier),
         _ => {
             eprintln!("unknown check {id}");
